@@ -33,4 +33,7 @@ def run(prog, tier):
     # strings are stored trimmed: the trimmer must empty a cell made only of padding
     import p_c11
     p_c11.check_trimmer(prog, res, 'string-trim')
+    # the content that is saved is the content the value setters stored
+    import setters
+    setters.rule(prog, res, {'ezc3d::DataNS::Points3dNS::Point', 'ezc3d::DataNS::AnalogsNS::Channel'}, rule_name='build-setters', minimum=5)
     return res
